@@ -70,6 +70,22 @@ def handler : Handler := fun op args =>
       let vs : SizeReq → Int × Int := fun _ => vf
       let ((a, b), (x, y)) := boxSizes vs fit c r
       pure s!"ok {a} {b} {x} {y}") args
+  | "render" => run (do
+      let fit ← bool; let fails ← bool; let ph ← bool; let kind ← word
+      let (arg, vs) ← (do
+        if kind == "flow" then
+          let c ← int; let vw ← pSize; let vo ← pSize
+          let vs : SizeReq → Int × Int := fun | .width _ => vw | .original => vo | .frame _ _ _ => (0, 0)
+          pure (SizeArg.flow c, vs)
+        else if kind == "box" then
+          let c ← int; let r ← int; let vf ← pSize
+          let vs : SizeReq → Int × Int := fun _ => vf
+          pure (SizeArg.box c r, vs)
+        else failure : P (SizeArg × (SizeReq → Int × Int)))
+      pure (match widgetRender vs fit arg fails ph with
+        | .image a b x y => s!"ok image {a} {b} {x} {y}"
+        | .placeholder sz => String.intercalate " " ("ok placeholder" :: sz.map toString)
+        | .raised => "err raised")) args
   | "split" => run (do
       let l ← listOf TermDrive.pTok
       pure (String.intercalate " " ("ok" :: (splitNul l).map segHex))) args
